@@ -80,6 +80,9 @@ pub const VALID_EXPRS: &[&str] = &[
     // 59: chemical bonds
     "<math><mrow><mi>H</mi><mo>&#x2212;</mo><mi>O</mi><mi>H</mi></mrow></math>",
     "<math><mi>C</mi><msub><mi>H</mi><mn>2</mn></msub><mo>=</mo><mi>C</mi><msub><mi>H</mi><mn>2</mn></msub><mo>+</mo><mi>H</mi><mo>:</mo><mi>Cl</mi></math>",
+    // 61: ordinals and number words (powers and root indexes above three, fractions spoken with ordinals, a large exponent)
+    "<math><msup><mi>x</mi><mn>4</mn></msup><mo>+</mo><mroot><mi>y</mi><mn>5</mn></mroot><mo>+</mo><mfrac><mn>3</mn><mn>7</mn></mfrac></math>",
+    "<math><msup><mi>a</mi><mn>23</mn></msup><mo>&#x2212;</mo><mroot><mn>2</mn><mn>12</mn></mroot><mo>+</mo><mfrac><mn>1</mn><mn>100</mn></mfrac><mo>+</mo><msup><mi>z</mi><mn>101</mn></msup></math>",
 ];
 
 /// Index of an expression with a character that only the *full* Unicode tables contain
